@@ -70,6 +70,16 @@ def run(ctx):
                 for op in ('outerexp', 'outersin', 'outercos'):
                     cases.append((op, [blk], []))
             groups.append({'u': u, 'opts': {}, 'cases': cases})
+    # outer functions after ANOTHER metric of the same dimension was used in the same process (outertan contains a
+    # metric-dependent inverse: nothing generated for one algebra may be reused for another)
+    for usig, other in (([1, 1, 1, -1], [1, 1, 1, 1]), ([1, 1, -1, -1], [1, 1, 1, -1]), ([0, 1, 1, 1], [1, 1, 1, 1]), ([1, 1, -1], [1, 1, 1])):
+        d_ = len(usig)
+        cs = []
+        for _ in range(2 if q else 8):
+            k_ = sorted(rng.sample([b_ for b_ in range(2 ** d_) if bin(b_).count('1') == 2], 2))
+            for op in ('outertan', 'outercos', 'outerexp'):
+                cs.append((op, [{'keys': k_, 'vals': [rng.choice([1, 2, -1, 3]) for _ in k_]}], []))
+        groups.append({'u': ucfg(sig=usig), 'opts': {}, 'cases': cs, 'pre_u': ucfg(sig=other), 'witness': True, 'revisit': 0})
     run_plan(ctx, groups, budget=60)
     # certificates
     us = [ucfg(sig=s) for s in ([1, 1], [1, -1], [0, 1], [1, 1, 1], [1, 1, -1], [0, 1, 1], [-1, -1, -1], [1, 1, 1, -1], [0, 1, 1, 1])]
